@@ -109,6 +109,9 @@ def run_sync(rec, cfg, given, calls, plan):
                 s.__enter__()
             elif c == "exit":
                 s.__exit__(None, None, None)
+            elif c == "pause":
+                import time as _t
+                _t.sleep(1.25)                      # the session sits idle: what it stamps next is still what the agent said last
             elif c == "refresh":
                 s.refresh()
             elif c == "get":
@@ -139,6 +142,8 @@ async def run_async(rec, cfg, given, calls, plan):
                 await s.__aenter__()
             elif c == "exit":
                 await s.__aexit__(None, None, None)
+            elif c == "pause":
+                await asyncio.sleep(1.25)
             elif c == "refresh":
                 op = "refresh"
                 await s.refresh()
@@ -205,6 +210,13 @@ def lost_discovery_histories(rec, users, thorough, base_idx=900):
                 for k in lost:
                     plan[k] = "drop"
                 hist.append((auth, priv, kt, calls, plan, base_idx + ai * 20 + ci * 5 + len(lost) + lost[0]))
+        # idle time between a reply and the next request (boots / time in a request are the values of the most recent accepted message -
+        # the client does not run a clock of its own), with clocks next to the top of the INTEGER range
+        for ci, calls in enumerate([["enter", "get", "pause", "get", "get"]]):
+            nreq = 6
+            plan = [("reply", "A17", (i + 3) % len(CLOCKS)) for i in range(nreq)]
+            hist.append((auth, priv, kt, calls, plan, base_idx + 90 + ai * 2))
+            hist.append((auth, priv, kt, calls, plan, base_idx + 91 + ai * 2))
         # the session leaves its context and is used again (entered again, or simply used: the object stays valid): whatever leaving
         # and re-entering do underneath, every later request is still the configured user's
         for ci, calls in enumerate([["enter", "get", "exit", "enter", "get", "get"], ["enter", "get", "exit", "get", "get_many"]]):
@@ -282,6 +294,14 @@ def run(tier):
     for k, (auth, priv) in enumerate([("sha1", "none"), ("md5", "none"), ("md5", "aes"), ("sha1", "des"), ("md5", "none"), ("sha1", "none"), ("md5", "des")]):
         calls = ["enter", "get", "get"]
         shared.append((auth, priv, "shared-password", False, "A17", calls, [("reply", "A17", (i + 1) % len(CLOCKS)) for i in range(6)], 5000 + k))
+    # idle sessions: more than a second passes between a reply and the next request; the request is stamped with what the agent said
+    # last (no clock of the client's own), also when that is the top of the INTEGER range
+    for k, (auth, priv, kt, given, ename) in enumerate([("none", "none", "password", False, "A17"), ("md5", "none", "password", True, "A5"),
+                                                          ("sha1", "aes", "master", False, "A32"), ("md5", "des", "localized", True, "A17")]):
+        calls = ["enter", "get", "pause", "get", "get"]
+        plan = [("reply", ename, (i + k + 1) % len(CLOCKS)) for i in range(7)]
+        scen.append((auth, priv, kt, given, ename, calls, plan, 6000 + k))
+        scen.append((auth, priv, kt, given, ename, calls, plan, 6100 + k))        # (lands in the other client's half)
     half = [s for k, s in enumerate(scen) if k % 2 == 0]
     other = [s for k, s in enumerate(scen) if k % 2 == 1]
     runs += shaped_password_sessions(rec, thorough)
